@@ -1,21 +1,22 @@
 \* generated with the builder script of C02/C08; families: MCSearchers.tla
 SPECIFICATION Spec
 CONSTANTS
-  SegSizes <- Segs21
-  Deleted = {}
+  SegSizes <- Segs22
+  Deleted = {1}
   OneHitEnc = TRUE
-  ScoreNone = TRUE
+  ScoreNone = FALSE
   HeapTakeover = 10
-  MaxCalls = 0
-  NTerms = 3
-  Family = "deep"
-  DropK1 = TRUE
+  MaxCalls = 4
+  NTerms = 2
+  Family = "flat2"
+  DropK1 = FALSE
   Queries <- MCQueries
   FixEmptySnapshot = FALSE
   FixBoolAdvance = FALSE
   FixShouldMin = FALSE
   FirstAdvanceOK <- FirstAdvNoQ2
 VIEW View
+INVARIANT ResultOK
+INVARIANT NoPanic
 INVARIANT EnumIsHits
-INVARIANT NoneEqualsScored
 CHECK_DEADLOCK FALSE
